@@ -790,9 +790,14 @@ class H2Connection:
         self.state_machine.process_input(ConnectionInputs.SEND_HEADERS)
         new_stream = stream_id not in self.streams
         highest_outbound_stream_id = self.highest_outbound_stream_id
-        stream = self._get_or_create_stream(
-            stream_id, AllowedStreamIDs(self.config.client_side)
-        )
+        if self.config.client_side:
+            stream = self._get_or_create_stream(
+                stream_id, AllowedStreamIDs.ODD
+            )
+        else:
+            # Servers cannot open streams by sending HEADERS: they respond on
+            # streams the client opened or that they promised.
+            stream = self._get_stream_by_id(stream_id)
         try:
             frames = stream.send_headers(
                 headers, self.encoder, end_stream,
